@@ -1011,9 +1011,11 @@ class Parser:
 
         while head.position < len(head.input_str):
             head.position += 1
-            token = self._next_token(head)
-            if token:
-                head.token_ahead = token
+            tokens = self._next_tokens(head)
+            if tokens:
+                # More than one token means lexical ambiguity. Leave it to the
+                # parser to fetch the lookahead(s) at the new position.
+                head.token_ahead = tokens[0] if len(tokens) == 1 else None
                 return True
         return False
 
